@@ -285,6 +285,30 @@ def sized_payload(n: int):
     return {"pad": "a" * (n - base)}
 
 
+def counts_of_interest() -> list:
+    """member / artifact counts at which batching, paging and progress logic rolls over, plus those the current source names (mined constants n: n, n+1, 2n, 2n+1, n/2+1)"""
+    from . import mined
+    out = [255, 256, 257, 1000, 1001, 1024, 1025, 2001, 4097]
+    for n in mined.ints():
+        if 4 <= n <= 6000:
+            out += [n, n + 1, 2 * n, 2 * n + 1, n // 2, n // 2 + 1]
+    return [n for n in dict.fromkeys(out) if 0 < n <= 13000]
+
+
+def raw_utf8_repodata(pad: int, span: int):
+    """(file bytes, value): a repodata document stored the way other tools store it — raw UTF-8, not \\u escapes — whose artifact records hold long runs of
+    2-, 3- and 4-byte characters, so that every byte offset inside the runs that is a multiple of any block size falls inside a character for some `pad` in 0..2
+    (a reader that decodes the file piecewise damages such a file; `span` = bytes the runs should cover)"""
+    import json as _json
+    per = max(1, span // 3)
+    doc = {"info": {"subdir": "noarch", "pad": "p" * pad},
+           "packages": {"euro-1.0-0.tar.bz2": {"name": "euro", "description": "\u20ac" * (per // 3)},
+                        "mixed-1.0-0.tar.bz2": {"name": "mixed", "description": ("\u00e9\u20ac\U0001f600a" * (per // 10))}},
+           "packages.conda": {"smile-1.0-0.conda": {"name": "smile", "summary": "\U0001f600" * (per // 4)}}}
+    text = _json.dumps(doc, ensure_ascii=False, indent=1)
+    return text.encode("utf-8"), doc
+
+
 # ---------------------------------------------------------------- keys
 
 class Key:
@@ -328,7 +352,29 @@ def _subpacket(typ: int, body: bytes) -> bytes:
 def realistic_hdr(rng) -> bytes:
     """a well-formed v4 hashed area as GnuPG emits it: version, type, algorithms, two-octet length, subpackets (issuer fingerprint, creation time, and
     sometimes notation data / policy URIs long enough to need the two- or five-octet subpacket length form)"""
-    subs = [_subpacket(33, b"\x04" + bytes(rng.getrandbits(8) for _ in range(20))), _subpacket(2, struct.pack(">I", rng.getrandbits(31)))]
+    created = rng.choice([rng.getrandbits(31), rng.getrandbits(30), 1, 1594619205, 0x7FFFFFFF, 0xFFFFFFFF])
+    subs = [_subpacket(33, b"\x04" + bytes(rng.getrandbits(8) for _ in range(20))), _subpacket(2, struct.pack(">I", created))]
+    # what a key holder's gpg.conf can add to the hashed area (RFC 4880 5.2.3.x): signature / key expiration times (long past, far ahead, zero = never),
+    # issuer key id, key flags, signer's user id, trust, exportable, revocable, preferred algorithms, features, reason for revocation — some marked critical.
+    # The library documents that it reads none of it: the entry is valid iff the 64-byte signature verifies over the RFC 4880 digest.
+    crit = lambda t: t | (0x80 if rng.random() < 0.3 else 0)
+    optional = [
+        lambda: _subpacket(crit(3), struct.pack(">I", rng.choice([1, 60, 86400, 31536000, 0, 0xFFFFFFFF, rng.getrandbits(20)]))),
+        lambda: _subpacket(crit(9), struct.pack(">I", rng.choice([1, 86400, 0, 0xFFFFFFFF]))),
+        lambda: _subpacket(16, bytes(rng.getrandbits(8) for _ in range(8))),
+        lambda: _subpacket(crit(27), bytes([rng.choice([0x01, 0x02, 0x03, 0x0C, 0x20, 0x80, 0x00])])),
+        lambda: _subpacket(28, rng.choice([b"Alice <alice@example.org>", "Zo\u00eb <z@example.org>".encode(), b""])),
+        lambda: _subpacket(5, bytes([rng.choice([0, 1, 60, 120, 255]), rng.choice([0, 60, 120])])),
+        lambda: _subpacket(4, bytes([rng.choice([0, 1])])),
+        lambda: _subpacket(7, bytes([rng.choice([0, 1])])),
+        lambda: _subpacket(11, bytes([9, 8, 7, 2])),
+        lambda: _subpacket(21, bytes([10, 9, 8, 11, 2])),
+        lambda: _subpacket(30, bytes([rng.choice([1, 3, 7])])),
+        lambda: _subpacket(crit(29), bytes([rng.choice([0, 1, 2, 3, 32])]) + b"superseded"),
+        lambda: _subpacket(rng.choice([0, 1, 8, 10, 13, 19, 34, 35, 100, 110, 127]), bytes(rng.getrandbits(8) for _ in range(rng.choice([0, 1, 4, 20])))),
+    ]
+    for _ in range(rng.choice([0, 1, 1, 2, 3, 5])):
+        subs.append(rng.choice(optional)())
     # body bytes of the long subpackets: text, or constant fills under which a reader that has lost its place in the area runs off its end
     # (0x00 / 0x01 read as tiny lengths, 0xff / 0xc0 as the introducers of the longer length forms)
     fill = rng.choice([None, None, 0, 0, 1, 2, 0xFF, 0xC0])
@@ -485,8 +531,16 @@ def alt_spellings(h: str) -> list:
     return [mixed_case(h), h.upper(), " " + h, h + "\n", "0x" + h, h[:32] + " " + h[32:]]
 
 
+NONSTR_INDEXES = [7, 0, None, (1, 2), 1.5, True, b"ab" * 32, frozenset(), -1]
+
+
 def junk_entry(rng):
     """arbitrary key -> arbitrary value, as an attacker may add to the unsigned signature map"""
+    if rng.random() < 0.12:
+        # an in-memory signature map can be indexed by something that is not a string at all (never by a JSON file): such an entry is filed under
+        # no key and is ignored like any other junk — its value is well formed, so that even the strictest envelope check has nothing to say.
+        # (The model's objects are indexed by strings: proto.enc shows it such an index as a string that is no key.)
+        return rng.choice(NONSTR_INDEXES), rng.choice([{"signature": "ab" * 64}, {"other_headers": "04001608", "signature": "cd" * 64}])
     k = rand_str(rng, maxlen=6, wf=True)
     if rng.random() < 0.3:
         k = rng.choice(["é", "\ud800", "\udfff", "junk", "", "ab" * 32, "zz" * 32, "0" * 63, "0" * 65, "Ab" * 32])
@@ -500,8 +554,20 @@ def junk_entry(rng):
 
 # ---------------------------------------------------------------- delegating metadata
 
+ORDER_RNG = None       # set per check run (framework.Check): member order of built metadata is then permuted now and then — it is no part of the value
+
+
+def _order(d: dict, p: float = 0.3) -> dict:
+    r = ORDER_RNG
+    if r is None or r.random() >= p:
+        return d
+    items = list(d.items())
+    r.shuffle(items)
+    return dict(items)
+
+
 def delegation(keys: list[Key], threshold) -> dict:
-    return {"pubkeys": [k.hex for k in keys], "threshold": threshold}
+    return _order({"pubkeys": [k.hex for k in keys], "threshold": threshold}, 0.4)
 
 
 def delegating_md(typ: str, delegations: dict, version=1, timestamp="2020-07-13T05:46:45Z",
@@ -511,7 +577,7 @@ def delegating_md(typ: str, delegations: dict, version=1, timestamp="2020-07-13T
         md["timestamp"] = timestamp
     if version is not None:
         md["version"] = version
-    return md
+    return _order(md)
 
 
 def root_md(root_keys: list[Key], root_thr, km_keys: list[Key], km_thr, version=1, extra: dict | None = None) -> dict:
@@ -522,7 +588,7 @@ def root_md(root_keys: list[Key], root_thr, km_keys: list[Key], km_thr, version=
 
 
 def envelope(signed, entries: dict | None = None) -> dict:
-    return {"signatures": dict(entries or {}), "signed": signed}
+    return _order({"signatures": dict(entries or {}), "signed": signed})
 
 
 def sign_env(env: dict, signers: list[Key], gpg: bool, rng=None) -> dict:
